@@ -250,6 +250,8 @@ def py_fits(shape, v):
         return True
     if "o" in shape:
         return py_fits(shape["o"], v)
+    if shape["pick"] != "first":
+        return True          # a delegating `<Wrapper>.serialize` takes whatever it is handed and decides inside
     fit = [py_fits(x, v) for x in shape["opts"]]
     return all(fit) if shape["wn"] == "allOf" else any(fit)
 
